@@ -132,6 +132,7 @@ func c04New() *c04State {
 	}
 	mod.Globals["o"] = c04Inst
 	mod.Globals["T"] = c04T
+	mod.Globals["g"] = py.Int(0) // the global the generated bodies test (`if g: t = 1` never runs)
 	return &c04State{ctx: ctx, globals: mod.Globals}
 }
 
@@ -141,6 +142,151 @@ func (s *c04State) exec(src string, mode py.CompileMode) (py.Object, error) {
 		return nil, err
 	}
 	return s.ctx.RunCode(code, s.globals, s.globals, nil)
+}
+
+// ---- round 3: callees with a body (`loc:` cases) ----
+
+// c04ShowL is c04Show with every other object (an instance of a Python class) shown as "O"
+func c04ShowL(o py.Object) string {
+	switch x := o.(type) {
+	case py.Int, py.String, py.NoneType, *c04Obj:
+		return c04Show(o)
+	case py.Tuple:
+		vs := make([]string, len(x))
+		for i, e := range x {
+			vs[i] = c04ShowL(e)
+		}
+		return "(" + strings.Join(vs, " ") + ")"
+	case py.StringDict:
+		keys := make([]string, 0, len(x))
+		for k := range x {
+			keys = append(keys, k)
+		}
+		sort.Strings(keys)
+		vs := make([]string, len(keys))
+		for i, k := range keys {
+			vs[i] = k + ":" + c04ShowL(x[k])
+		}
+		return "{" + strings.Join(vs, " ") + "}"
+	}
+	return "O"
+}
+
+func c04Code(f py.Object) *py.Code {
+	switch x := f.(type) {
+	case *py.Function:
+		return x.Code
+	case *py.BoundMethod:
+		return c04Code(x.Method)
+	}
+	return nil
+}
+
+func c04Layout(co *py.Code) string {
+	c2a := "nil"
+	if co.Cell2arg != nil {
+		vs := make([]string, len(co.Cell2arg))
+		for i, b := range co.Cell2arg {
+			vs[i] = fmt.Sprintf("%d", b)
+		}
+		c2a = strings.Join(vs, ",")
+	}
+	return "vn=" + strings.Join(co.Varnames, ",") + "|cv=" + strings.Join(co.Cellvars, ",") +
+		"|fv=" + strings.Join(co.Freevars, ",") + "|c2a=" + c2a
+}
+
+// the snapshot dict shown over every name of the code object (unbound: "name=-"), sorted by name
+func c04Namespace(co *py.Code, snap py.StringDict) string {
+	seen := map[string]bool{}
+	var names []string
+	for _, l := range [][]string{co.Varnames, co.Cellvars, co.Freevars} {
+		for _, n := range l {
+			if !seen[n] {
+				seen[n] = true
+				names = append(names, n)
+			}
+		}
+	}
+	for n := range snap {
+		if !seen[n] {
+			seen[n] = true
+			names = append(names, n+"!") // a key that is no variable of the code object
+		}
+	}
+	sort.Strings(names)
+	vs := make([]string, len(names))
+	for i, n := range names {
+		if v, ok := snap[strings.TrimSuffix(n, "!")]; ok {
+			vs[i] = n + "=" + c04ShowL(v)
+		} else {
+			vs[i] = n + "=-"
+		}
+	}
+	return "{" + strings.Join(vs, " ") + "}"
+}
+
+func c04Raw(lp []py.Object) string {
+	vs := make([]string, len(lp))
+	for i, o := range lp {
+		switch x := o.(type) {
+		case nil:
+			vs[i] = "-"
+		case *py.Cell:
+			if x.Get() == nil {
+				vs[i] = "c[-]"
+			} else {
+				vs[i] = "c[" + c04ShowL(x.Get()) + "]"
+			}
+		default:
+			vs[i] = c04ShowL(o)
+		}
+	}
+	return strings.Join(vs, " ")
+}
+
+// run one `loc:` call: `f(...)` source, or `@ <tuple source> @ <dict source or ->` = py.Call from Go
+func (s *c04State) locCall(call string) (string, string) {
+	f := s.globals["f"]
+	co := c04Code(f)
+	if co == nil {
+		return "E:nofunction", ""
+	}
+	layout := c04Layout(co)
+	var res py.Object
+	var err error
+	if strings.HasPrefix(call, "@ ") {
+		parts := strings.SplitN(call[2:], " @ ", 2)
+		var t, d py.Object
+		if t, err = s.exec(parts[0], py.EvalMode); err != nil {
+			return "E:harness-" + errClass(err), layout
+		}
+		var kw py.StringDict
+		if parts[1] != "-" {
+			if d, err = s.exec(parts[1], py.EvalMode); err != nil {
+				return "E:harness-" + errClass(err), layout
+			}
+			kw = d.(py.StringDict)
+		}
+		res, err = py.Call(f, t.(py.Tuple), kw)
+	} else {
+		res, err = s.exec(call, py.EvalMode)
+	}
+	if err != nil {
+		return errClass(err), layout
+	}
+	prefix := ""
+	if g, ok := res.(*py.Generator); ok {
+		prefix = "gen:"
+		layout += "|lp=" + c04Raw(g.Frame.Localsplus)
+		if res, err = py.Next(g); err != nil {
+			return "gen:" + errClass(err), layout
+		}
+	}
+	snap, ok := res.(py.StringDict)
+	if !ok {
+		return prefix + "?" + c04ShowL(res), layout
+	}
+	return prefix + c04Namespace(co, snap), layout
 }
 
 func init() {
@@ -164,6 +310,9 @@ func init() {
 					}
 					st.lastDef = def
 				}
+			}
+			if strings.HasPrefix(line, "loc:") {
+				return st.locCall(call)
 			}
 			res, err := st.exec(call, py.EvalMode)
 			if err != nil {
